@@ -194,6 +194,24 @@ func (br *xmpReader) readTagHeader(parent Tag) (tag Tag, err error) {
 		// Find Start of Tag
 		for ; i < len(buf); i++ {
 			if buf[i] == '<' {
+				if i > 0 {
+					// Drop what precedes the tag so that the tag starts the window
+					// and its name cannot be cut off by the window's end.
+					full := len(buf) >= s
+					if _, err = br.Discard(i); err != nil {
+						err = errors.Wrap(err, "Tag Header (discard)")
+						return
+					}
+					buf, i = buf[i:], 0
+					if full && len(buf) < maxTagHeaderSize {
+						// look ahead again only when the window was cut short by its size, not by the end of the data
+						s = maxTagHeaderSize
+						if buf, err = br.Peek(s); err != nil {
+							err = errors.Wrap(err, "Tag Header")
+							return
+						}
+					}
+				}
 				if buf[i+1] == '/' {
 					tag.t = stopTag
 					i += 2
